@@ -7,8 +7,8 @@ from xdsl.backend.riscv.lowering.utils import (
     register_type_for_type,
 )
 from xdsl.context import Context
-from xdsl.dialects import builtin, riscv_scf, scf
-from xdsl.ir import Operation, SSAValue
+from xdsl.dialects import arith, builtin, riscv_scf, scf
+from xdsl.ir import Block, Operation, OpResult, SSAValue
 from xdsl.passes import ModulePass
 from xdsl.pattern_rewriter import (
     GreedyRewritePatternApplier,
@@ -46,10 +46,30 @@ class ScfForLowering(RewritePattern):
         rewriter.replace(op, (new_op, *mv_res_ops), res_values)
 
 
+def _computed_in(value: SSAValue, block: Block | None) -> bool:
+    """Whether an operation of the block computes the value (casts only forward it)."""
+    while isinstance(value, OpResult) and isinstance(
+        value.op, arith.IndexCastOp | builtin.UnrealizedConversionCastOp
+    ):
+        value = value.op.operands[0]
+    return isinstance(value, OpResult) and value.op.parent is block
+
+
 class ScfYieldLowering(RewritePattern):
     @op_type_rewrite_pattern
     def match_and_rewrite(self, op: scf.YieldOp, rewriter: PatternRewriter) -> None:
-        rewriter.replace(op, riscv_scf.YieldOp(*cast_operands_to_regs(rewriter, op)))
+        # The yielded values share the registers of the loop-carried values, so a value
+        # that is not computed in the body (induction variable, outer value) is copied.
+        values = cast_operands_to_regs(rewriter, op)
+        copied = [i for i, v in enumerate(op.operands) if not _computed_in(v, op.parent)]
+        if copied:
+            mv_ops, new_values = move_to_unallocated_regs(
+                [values[i] for i in copied], [op.operands[i].type for i in copied]
+            )
+            rewriter.insert(mv_ops)
+            for i, new_value in zip(copied, new_values):
+                values[i] = new_value
+        rewriter.replace(op, riscv_scf.YieldOp(*values))
 
 
 class ConvertScfToRiscvPass(ModulePass):
